@@ -232,6 +232,24 @@ func newHTTPFetcher(ctx context.Context, fc *fetcherConfig) (*httpFetcher, int64
 			rt.Client.RetryWaitMax = fc.maxWait
 			rt.Client.Backoff = backoffStrategy
 			rt.Client.CheckRetry = retryStrategy
+			// The inner http.Client follows redirects by itself and copies the request
+			// headers to the new location. Keep following (nested redirects included),
+			// but never forward the headers configured for this host, nor its
+			// Authorization, to another host.
+			hostHeader := host.Header
+			rt.Client.HTTPClient.CheckRedirect = func(req *http.Request, via []*http.Request) error {
+				if len(via) >= 10 {
+					return errors.New("stopped after 10 redirects")
+				}
+				if req.URL.Host != via[0].URL.Host {
+					for k := range hostHeader {
+						delete(req.Header, k) // keys are sent as configured, not canonicalized
+						req.Header.Del(k)
+					}
+					req.Header.Del("Authorization")
+				}
+				return nil
+			}
 			timeout = rt.Client.HTTPClient.Timeout
 		}
 
